@@ -217,6 +217,7 @@ dgstrf (superlu_options_t *options, SuperMatrix *A,
     int	      *marker;
     double    *dense, *tempv;
     int       *relax_end;
+    int       *descendants; /* scratch for the relaxed-supernode search */
     double    *a;
     int_t     *asub, *xa_begin, *xa_end;
     int_t     *xlsub, *xlusup, *xusub;
@@ -278,11 +279,14 @@ dgstrf (superlu_options_t *options, SuperMatrix *A,
 
     /* Identify relaxed snodes */
     relax_end = (int *) intMalloc(n);
+    /* scratch of n entries: marker[] holds only NO_MARKER*m, too few when n > 3m */
+    descendants = (int *) int32Malloc(n + 1);
     if ( options->SymmetricMode == YES ) {
-        heap_relax_snode(n, etree, relax, marker, relax_end); 
+        heap_relax_snode(n, etree, relax, descendants, relax_end); 
     } else {
-        relax_snode(n, etree, relax, marker, relax_end); 
+        relax_snode(n, etree, relax, descendants, relax_end); 
     }
+    SUPERLU_FREE (descendants);
     
     ifill (perm_r, m, SLU_EMPTY);
     ifill (marker, m * NO_MARKER, SLU_EMPTY);
